@@ -1,6 +1,8 @@
 //! Verification harness for libpathrs: drives the real library (built from
 //! /repo's working tree with the `_verif_hooks` feature) on generated cases and
 //! writes transcripts for the Lean model driver.
+mod capi;
+mod capisuite;
 mod fmt;
 mod gen;
 mod interpose;
@@ -67,7 +69,7 @@ fn warm_up(work: &Path) {
     let _ = fs::remove_dir_all(&d);
 }
 
-fn setup_case_dir(ctx: &Ctx, name: &str, spec: &TreeSpec) -> (PathBuf, PathBuf) {
+pub fn setup_case_dir(ctx: &Ctx, name: &str, spec: &TreeSpec) -> (PathBuf, PathBuf) {
     let top = ctx.work.join(name);
     let _ = fs::remove_dir_all(&top);
     fs::create_dir_all(top.join("root")).expect("create case dir");
@@ -291,6 +293,22 @@ fn main() {
     warm_up(&work);
     match cmd.as_str() {
         "probe" => probe(&mut ctx),
+        "capi-args" => capisuite::suite_capi_args(&mut ctx, args.iter().any(|a| a == "--thorough")),
+        "errtable" => {
+            let threads: usize = arg_val(&args, "--threads").and_then(|s| s.parse().ok()).unwrap_or(8);
+            capisuite::suite_errtable(&mut ctx, seed, n, threads)
+        }
+        "capi-probe" => {
+            let r = unsafe { capi::pathrs_inroot_resolve(-1, b"a\0".as_ptr() as *const _) };
+            let e = unsafe { capi::pathrs_errorinfo(r) };
+            let (errno, desc) = unsafe {
+                ((*e).saved_errno, std::ffi::CStr::from_ptr((*e).description).to_string_lossy().to_string())
+            };
+            println!("ret={r} errno={errno} desc={desc}");
+            let e2 = unsafe { capi::pathrs_errorinfo(r) };
+            println!("second={:?}", e2.is_null());
+            unsafe { capi::pathrs_errorinfo_free(e) };
+        }
         "root" => {
             let class = arg_val(&args, "--ops")
                 .and_then(|s| gen::OpClass::parse(&s))
